@@ -305,6 +305,10 @@ pub fn write_float_nonscientific<const FORMAT: u128>(
     }
 
     let digits = &buffer[start..start + digit_count];
+    let leading_zeros = match ltrim_char_count(digits, b'0') {
+        count if count == digit_count => 0,
+        count => count,
+    };
 
     // Write the integer component.
     let integer_length = initial_cursor - start;
@@ -341,6 +345,7 @@ pub fn write_float_nonscientific<const FORMAT: u128>(
         copy_to_dst(dst, src);
         let zeros = rtrim_char_count(&bytes[cursor..end], b'0');
         cursor += fraction_count - zeros;
+        digit_count -= zeros;
     } else if options.trim_floats() {
         // Remove the decimal point, went too far.
         cursor -= 1;
@@ -351,7 +356,8 @@ pub fn write_float_nonscientific<const FORMAT: u128>(
     }
 
     // Determine if we need to add more trailing zeros.
-    let exact_count = shared::min_exact_digits(digit_count, options);
+    // The leading zeros of values below 1 are not significant digits.
+    let exact_count = shared::min_exact_digits(digit_count - leading_zeros, options) + leading_zeros;
 
     // Write any trailing digits to the output.
     // Won't panic since bytes cannot be empty.
